@@ -59,6 +59,10 @@ func (server *Server) registerCoreExecutors() {
 			if err != nil {
 				return nil, err
 			}
+			if len(arg) == 0 {
+				// PING "" echoes the empty string like any other argument.
+				return NewBulkMessage(arg), nil
+			}
 		}
 		return server.systemCommandHandler.Ping(conn, arg)
 	})
